@@ -23,6 +23,8 @@ TCall == /\ IsEv("call")
          /\ Ev[l].a = Ev[l].a_after                                        \* arguments are never modified
          /\ held' = IF Ev[l].ret.t \in {"err", "nil", "panic"} THEN held ELSE Append(held, Ev[l].ret)
          /\ UNCHANGED snapshot /\ Consume
+\* a status delivered by the event listener and kept by the caller
+TEventKept == IsEv("event") /\ held' = Append(held, Ev[l].ret) /\ UNCHANGED snapshot /\ Consume
 TRecheck == /\ IsEv("recheck")
             /\ Ev[l].ix \in 1..Len(held) /\ (Ev[l].mutated \/ Ev[l].now = held[Ev[l].ix])
             /\ UNCHANGED <<snapshot, held>> /\ Consume
@@ -30,7 +32,7 @@ TClone == IsEv("clone") /\ Ev[l].clone = Ev[l].orig /\ Ev[l].orig_after = Ev[l].
 TDeviceList == IsEv("devicelist") /\ Ev[l].serials = [i \in 1..Len(snapshot.devices) |-> snapshot.devices[i].serial] /\ UNCHANGED <<snapshot, held>> /\ Consume
 Done == l = Len(Ev) + 1
 Accept == Done /\ UNCHANGED tv
-TraceNext == TConstruct \/ TNoEffect \/ TCall \/ TRecheck \/ TClone \/ TDeviceList \/ Accept
+TraceNext == TConstruct \/ TNoEffect \/ TEventKept \/ TCall \/ TRecheck \/ TClone \/ TDeviceList \/ Accept
 HighWater == IF l > TLCGet(sc) THEN TLCSet(sc, l) ELSE TRUE
 Report == \A i \in 1..Len(Hist) : PrintT(<<"REACHED", Hist[i].id, TLCGet(i) - 1, Len(Hist[i].ev)>>)
 ============================================================================
